@@ -7,7 +7,6 @@ import (
 	"math/rand"
 	"os"
 	"path/filepath"
-	"runtime"
 	"sort"
 	"strings"
 	"time"
@@ -263,17 +262,23 @@ func runC09(rng *rand.Rand, scale int, out string, shards int, seed int64, corpu
 		if hung {
 			return
 		}
-		r := cmd.VerifC09ReadAll(in.Files, in.Dirs, in.Main, in.Defines, in.IP, 200000)
-		if r.End == "setup" {
-			runtime.GC()
-			r = cmd.VerifC09ReadAll(in.Files, in.Dirs, in.Main, in.Defines, in.IP, 200000)
-			if r.End == "setup" {
-				sum.Outcomes["read-setup-failed"]++
+		var r cmd.VerifC09ReadResult
+		tick()
+		for attempt := 0; ; attempt++ {
+			if !guarded(func() { r = cmd.VerifC09ReadAll(in.Files, in.Dirs, in.Main, in.Defines, in.IP, 200000) }) {
+				reads = append(reads, readRec{In: in, End: "runaway", Err: obsT{Kind: "timedout"}})
+				sum.Outcomes["read-timeout"]++
 				return
 			}
+			if (r.End == "setup" || strings.Contains(r.Err.ErrShort, "too many open files")) && attempt < 3 {
+				releaseDescriptors()
+				continue
+			}
+			break
 		}
-		if strings.Contains(r.Err.ErrShort, "too many open files") {
-			runtime.GC()
+		if r.End == "setup" {
+			sum.Outcomes["read-setup-failed"]++
+			return
 		}
 		rr := readRec{In: in, End: r.End}
 		for _, e := range r.Events {
@@ -335,7 +340,12 @@ func runC09(rng *rand.Rand, scale int, out string, shards int, seed int64, corpu
 			line = "edit" + c
 		}
 		line = strings.TrimSpace(line)
-		e, p := cmd.VerifC09ScriptLine(line)
+		var e, p string
+		if !guarded(func() { e, p = cmd.VerifC09ScriptLine(line) }) {
+			edits = append(edits, editRec{Cmd: c, Line: line, Obs: 2, Pan: "did not terminate"})
+			sum.Outcomes["edit-timeout"]++
+			break
+		}
 		rec := editRec{Cmd: c, Line: line, Err: e, Pan: p}
 		switch {
 		case p != "":
